@@ -1,6 +1,9 @@
-# commits in /repo that add build-tag-guarded hooks (none so far: everything is injected with -overlay)
-HOOK_COMMITS = []
+# commits in /repo that add build-tag-guarded hooks (everything else is injected with -overlay)
+HOOK_COMMITS = ["eaad75c33193eac5d38649492fb7d6ea2d9f8370"]
 
 # properties not (yet) claimed; an entry is dropped automatically once lib/propdefs/<id>.py exists
 _PENDING = "check not built yet in this development; to be claimed once its model, theorems and driver exist"
 NOT_APPLICABLE = {("C%02d" % i): _PENDING for i in range(1, 20)}
+
+# properties whose check is finished and reviewed by the coordinator; only these are claimed in MANIFEST.json
+CLAIMED = ["C01", "C11", "C18"]
